@@ -476,13 +476,15 @@ def rule_asserts(toks, log):
 
 
 def rule_macros(toks, log):
-    """R4: format!(..) -> verif_fmt(); panic!(..)/unreachable!(..) -> verif_panic()."""
+    """R4: format!(..) -> verif_fmt(); panic!(..)/unreachable!(..) -> verif_panic().
+    R13: offset_of_tuple!(..) (a memory-layout annotation computed with pointer arithmetic) -> verif_offset(),
+    an unspecified usize."""
     out = []
     i = 0
     n = len(toks)
     while i < n:
         t = toks[i]
-        if t.kind == "ident" and t.text in ("format", "panic", "unreachable", "todo", "unimplemented"):
+        if t.kind == "ident" and t.text in ("format", "panic", "unreachable", "todo", "unimplemented", "offset_of_tuple"):
             j = i + 1
             while j < n and toks[j].kind == "ws":
                 j += 1
@@ -492,9 +494,9 @@ def rule_macros(toks, log):
                     k += 1
                 if k < n and toks[k].text in OPEN:
                     e = match_close(toks, k)
-                    name = "verif_fmt" if t.text == "format" else "verif_panic"
+                    name = "verif_fmt" if t.text == "format" else ("verif_offset" if t.text == "offset_of_tuple" else "verif_panic")
                     out.extend(tokenize(name + "()"))
-                    log.append("R4: %s!(..) -> %s()" % (t.text, name))
+                    log.append("%s: %s!(..) -> %s()" % ("R13" if t.text == "offset_of_tuple" else "R4", t.text, name))
                     i = e + 1
                     continue
         out.append(t)
